@@ -63,6 +63,7 @@ type flattenArgs struct {
 	InW     bool        `json:"inW"`
 	Anon    bool        `json:"anon"`    // the bundle holds anonymous pointers (naming re-targets dependants: not modelled constructively)
 	FailAt  int         `json:"failAt"`  // fail the k-th document load (0 = none)
+	Vanish  bool        `json:"vanish"`  // flatten once, delete the auxiliary documents, then flatten again (the recorded run): state kept between calls must not hide the loss
 	Second  bool        `json:"second"`  // run the idempotence pass
 	Rerun   bool        `json:"rerun"`   // run again from the files and compare bytes (C05 reproducibility)
 	Getters bool        `json:"getters"` // record the analyzer state (C10)
@@ -370,6 +371,16 @@ func opFlatten(req *Req) (any, map[string]string, error) {
 				return
 			}
 			rec.Events = append(rec.Events, se)
+		}
+	}
+	if args.Vanish {
+		if _, _, _, e := flattenOnce(req.Files["root"], o); e != nil {
+			return nil, nil, fmt.Errorf("load root: %w", e)
+		}
+		for id, f := range req.Files {
+			if id != "root" {
+				os.Remove(f)
+			}
 		}
 	}
 	resetLoader(args.FailAt)
